@@ -162,9 +162,9 @@ theorem tail_edit_resumes {H : Text → String} {w : World} {m : MFile} {old : L
   unfold runStmts
   simp only [hle, if_false, if_true]
   have hs := stmtLoop_nofault (sums H m.stmts) (m.stmts.drop r.applied)
-    { w with tick := w.tick + 1, revs := upsert r w.revs } { r with total := m.stmts.length } (by simpa using hnf)
+    { w with tick := w.tick + 1, revs := upsert r w.revs } { r with total := m.stmts.length, hash := m.hash } (by simpa using hnf)
   rcases hL : stmtLoop (sums H m.stmts) (m.stmts.drop r.applied)
-    { w with tick := w.tick + 1, revs := upsert r w.revs } { r with total := m.stmts.length } with ⟨w2, r2, res2⟩
+    { w with tick := w.tick + 1, revs := upsert r w.revs } { r with total := m.stmts.length, hash := m.hash } with ⟨w2, r2, res2⟩
   rw [hL] at hs
   obtain ⟨h1, h2, h3, h4, h5, h6, h7⟩ := hs
   simp only at h1 h2 h3 h4 h5 h6 h7
